@@ -35,8 +35,101 @@ def gen_pairs(ctx: core.Ctx, n: int) -> list[tuple[str, str]]:
     return out
 
 
+BUMP_REL = ["1", "0", "2.0", "1.2", "0.0", "0.5", "1.2.3", "0.0.3", "0.1.0", "2.0.0", "1.2.3.4", "0.0.0.1", "1.0.0.0", "3.1.4.1.5"]
+BUMP_SUF = ["", "", "a1", "b2", "rc1", ".post1", ".dev0", ".dev3", "a1.dev2", ".post2.dev1", "rc1.post3"]
+BUMP_EPOCH = ["", "", "", "1!", "2!"]
+METHODS = ["next_major", "next_minor", "next_patch", "next_breaking", "stable", "first_devrelease", "first_prerelease", "next_stable",
+           "next_prerelease", "next_postrelease", "next_devrelease", "without_local", "without_postrelease", "without_devrelease"]
+
+
+def bump_versions(ctx: core.Ctx, n: int | None) -> list[str]:
+    allv = [e + r + x for e in dict.fromkeys(BUMP_EPOCH) for r in BUMP_REL for x in dict.fromkeys(BUMP_SUF)]
+    if n is None or n >= len(allv):
+        return allv
+    return ctx.rng.sample(allv, n)
+
+
+def check_bumps(ctx: core.Ctx, versions: list[str], stream: str) -> None:
+    """bumps and the range operators ^ ~ ~= on every version: model vs code (texts of all derived versions, parsed ranges) and
+    the property oracle (bumps are final and strictly greater; the ranges admit V, reject their upper bound and every pre-release
+    of it; ~=V agrees with the reference's compatible-release specifier on probes)."""
+    from poetry.core.constraints.version import Version, parse_constraint
+    from . import c03
+    lines = [core.line("vbump", v) for v in versions]
+    ops = [("^", v) for v in versions] + [("~", v) for v in versions] + [("~=", v) for v in versions if "." in v.split("!")[-1]]
+    lines += [core.line("cparse", o + v) for o, v in ops]
+    out = core.run_driver(lines)
+    dis = 0
+    for v, mo in zip(versions, out[:len(versions)]):
+        V0 = Version.parse(v)
+        io = ["ok"]
+        for meth in METHODS:
+            try:
+                io.append(str(getattr(V0, meth)() if callable(getattr(V0, meth)) else getattr(V0, meth)))
+            except Exception as e:  # noqa: BLE001
+                io.append("!" + V.errname(e))
+        ctx.case("bump:" + v, nontrivial=True, sample={"version": v, "next_breaking": io[4]} if "!" in v else None)
+        ctx.count("bump:precision=" + str(V0.precision))
+        if io != mo:
+            dis += 1
+            ctx.disagree(stream + ":bumps", v, io, mo)
+        for meth, t in zip(METHODS[:4], io[1:5]):
+            if t.startswith("!"):
+                ctx.violate(f"bump-raises:{meth}:{v}", f"Version({v!r}).{meth}() raised {t}", {"op": "bump", "v": v})
+                continue
+            w = Version.parse(t)
+            if not (w > V0) or w.is_unstable() or w.is_postrelease() or w.is_local() or w.epoch != V0.epoch:
+                ctx.violate(f"bump-wrong:{meth}:{v}", f"Version({v!r}).{meth}() = {t}: must be a final release of the same epoch strictly greater than the version", {"op": "bump", "v": v})
+    ref_reqs = []
+    ref_meta = []
+    for (o, v), mo in zip(ops, out[len(versions):]):
+        text = o + v
+        V0 = Version.parse(v)
+        try:
+            c = parse_constraint(text)
+        except Exception as e:  # noqa: BLE001
+            ctx.violate(f"range-raises:{text}", f"parse_constraint({text!r}) raised {V.errname(e)}", {"op": "range", "text": text})
+            continue
+        io = ["ok", *V.report(c, [])]
+        if io[:5] != mo[:5]:
+            dis += 1
+            ctx.disagree(stream + ":range", text, io, mo)
+        ctx.case("range:" + text, nontrivial=True)
+        ctx.count("range:" + o)
+        mx = getattr(c, "max", None)
+        wit = {"op": "range", "text": text}
+        if mx is None or getattr(c, "min", None) is None:
+            ctx.violate(f"range-shape:{text}", f"{text!r} parsed to {c}, not a bounded range", wit)
+            continue
+        pre = [Version.parse(mx.text + x) for x in (".dev0", "a0", "rc5")] if not mx.is_unstable() else []
+        if not c.allows(V0):
+            ctx.violate(f"range-rejects-self:{text}", f"{text!r} parsed to {c} which rejects {v} itself", wit)
+        elif c.allows(mx) or any(c.allows(p_) for p_ in pre):
+            ctx.violate(f"range-admits-upper:{text}", f"{text!r} parsed to {c} which admits its upper bound {mx} or a pre-release of it", wit)
+        elif mx.is_unstable() or mx.is_postrelease() or not (mx > V0) or mx.epoch != V0.epoch:
+            ctx.violate(f"range-upper-shape:{text}", f"{text!r} parsed to {c}: the upper bound must be a final release of the same epoch above {v}", wit)
+        if o == "~=":
+            probes = [v, mx.text, mx.text + ".dev0", V0.next_patch().text, V0.next_minor().text, V0.next_major().text,
+                      V0.stable.text + ".post1", ("%d!" % V0.epoch if V0.epoch else "") + ".".join(str(x) for x in V0.release.to_parts()[:-1]) + ".99"]
+            probes = [p_ for p_ in dict.fromkeys(probes) if V.parse_probe(p_) is not None
+                      and V.is_regular(V.parse_probe(p_), [V0, mx])]
+            ref_reqs.append({"op": "specv", "s": text, "vs": probes})
+            ref_meta.append((text, c, probes))
+    if ref_reqs:
+        for (text, c, probes), r in zip(ref_meta, c03.ref_batch(ref_reqs)):
+            if r[0] != "ok":
+                ctx.count("compat:reference-rejects")     # e.g. ~=1 — the reference has no such specifier
+                continue
+            for p_, want in zip(probes, r[1]):
+                if want is not None and c.allows(Version.parse(p_)) != want:
+                    ctx.violate(f"compat-vs-ref:{text}", f"{text!r} parsed to {c}: admits {p_} = {not want}, PEP 440 compatible release says {want}", {"op": "range", "text": text, "v": p_})
+                    break
+    ctx.stream(stream, len(lines), dis)
+
+
 def correspondence(ctx: core.Ctx) -> None:
     vc_engine.run_pairs(ctx, CORPUS, "corpus", WHICH)
+    check_bumps(ctx, ["1!1.2.3.4", "2!0.0.3.dev1", "1!1.2.3.4rc1", "0", "0.0", "0.0.0", "1.0a1", "1!2.0.post1.dev0"] + bump_versions(ctx, ctx.budget(260, None)), "bumps")
     n = ctx.budget(1500, 40000)
     pairs = gen_pairs(ctx, n)
     for k in range(0, len(pairs), 2000):
@@ -54,6 +147,8 @@ def search(ctx: core.Ctx) -> None:
     if pairs:
         vc_engine.run_pairs(ctx, pairs, "search-disagreeing", WHICH)
     if not ctx.violations:
+        check_bumps(ctx, bump_versions(ctx, None), "search-bumps")
+    if not ctx.violations:
         pairs = gen_pairs(ctx, 12000)
         for k in range(0, len(pairs), 2000):
             vc_engine.run_pairs(ctx, pairs[k:k + 2000], "search-gen", WHICH)
@@ -64,5 +159,12 @@ def search(ctx: core.Ctx) -> None:
 def replay(ctx: core.Ctx, payload: dict[str, Any]) -> bool:
     w = payload.get("witness", payload)
     before = len(ctx.violations)
+    if w.get("op") == "bump":
+        check_bumps(ctx, [w["v"]], "replay")
+        return len(ctx.violations) > before
+    if w.get("op") == "range":
+        t = w["text"]
+        check_bumps(ctx, [t.lstrip("^~=")], "replay")
+        return len(ctx.violations) > before
     vc_engine.run_pairs(ctx, [(w["a"], w["b"])] * 3, "replay", WHICH)
     return len(ctx.violations) > before
